@@ -27,7 +27,8 @@ var defects = []string{"import-cycle", "import-self", "include-cycle", "typedef-
 	"grouping-cycle-direct", "grouping-cycle-nested", "grouping-cycle-unused", "grouping-cycle-via-choice", "identity-cycle", "identity-self", "feature-cycle", "feature-self",
 	"dangling-import", "dangling-include", "dangling-type", "dangling-uses", "dangling-base", "dangling-if-feature", "dangling-prefix", "belongs-to-missing",
 	"typedef-cycle-cross-scope", "grouping-cycle-long", "grouping-cycle-via-uses-augment", "grouping-cycle-via-uses-augment-nested",
-	"feature-cycle-second", "dangling-if-feature-second", "dangling-include-foreign", "dangling-include-foreign-nested"}
+	"feature-cycle-second", "dangling-if-feature-second", "dangling-include-foreign", "dangling-include-foreign-nested",
+	"typedef-cycle-local-case", "typedef-cycle-local-augment", "typedef-cycle-local-uses-augment", "typedef-cycle-local-list"}
 
 func str(s string) *sg.TypeSpec { return &sg.TypeSpec{Name: s} }
 
@@ -95,6 +96,30 @@ func inject(mods []*sg.Mod, d string, pick func(n int) int) {
 	case "typedef-self":
 		m.Typedefs = append(m.Typedefs, &sg.Typedef{Name: "cyc-a", Type: str("cyc-a")})
 		host.Nodes[0].Kids = append(host.Nodes[0].Kids, &sg.Node{Kind: "leaf", Name: "cyc-leaf", Type: str("cyc-a")})
+	case "typedef-cycle-local-case", "typedef-cycle-local-augment", "typedef-cycle-local-uses-augment", "typedef-cycle-local-list":
+		// typedefs local to a container or list that is reached only through a choice and case (explicit or shorthand), a
+		// module-level augment, the augment of a uses, or a list; used by a leaf there or by nobody
+		holder := &sg.Node{Kind: "container", Name: "cyc-holder", Typedefs: []*sg.Typedef{{Name: "cyc-a", Type: str("cyc-b")}, {Name: "cyc-b", Type: str("cyc-c")}, {Name: "cyc-c", Type: str("cyc-a")}}}
+		if pick(2) == 0 {
+			holder.Kids = append(holder.Kids, &sg.Node{Kind: "leaf", Name: "cyc-leaf", Type: str("cyc-b")})
+		}
+		switch d {
+		case "typedef-cycle-local-case":
+			if pick(2) == 0 {
+				host.Nodes[0].Kids = append(host.Nodes[0].Kids, &sg.Node{Kind: "choice", Name: "cyc-ch", Kids: []*sg.Node{{Kind: "case", Name: "cyc-cs", Kids: []*sg.Node{holder}}}})
+			} else {
+				host.Nodes[0].Kids = append(host.Nodes[0].Kids, &sg.Node{Kind: "choice", Name: "cyc-ch", Kids: []*sg.Node{holder}})
+			}
+		case "typedef-cycle-local-augment":
+			host.Augments = append(host.Augments, &sg.Augment{Target: "/" + host.Prefix + ":" + host.Nodes[0].Name, Kids: []*sg.Node{holder}})
+		case "typedef-cycle-local-uses-augment":
+			host.Groupings = append(host.Groupings, &sg.Grouping{Name: "cyc-gh", Kids: []*sg.Node{{Kind: "container", Name: "cyc-x"}}})
+			host.Nodes[0].Kids = append(host.Nodes[0].Kids, &sg.Node{Kind: "uses", Name: "cyc-gh", Augments: []*sg.Augment{{Target: "cyc-x", Kids: []*sg.Node{holder}}}})
+		default:
+			holder.Kind, holder.Key = "list", "cyc-k"
+			holder.Kids = append([]*sg.Node{{Kind: "leaf", Name: "cyc-k", Type: &sg.TypeSpec{Name: "string"}}}, holder.Kids...)
+			host.Nodes[0].Kids = append(host.Nodes[0].Kids, &sg.Node{Kind: "container", Name: "cyc-outer", Kids: []*sg.Node{holder}})
+		}
 	case "typedef-cycle-cross-scope":
 		// a typedef local to a container refers to a module-level typedef that refers back by union membership
 		m.Typedefs = append(m.Typedefs, &sg.Typedef{Name: "cyc-a", Type: &sg.TypeSpec{Name: "union", Members: []*sg.TypeSpec{str("int8"), str("cyc-b")}}},
